@@ -8,6 +8,8 @@ PROFILE_MODULES = {
     "crud": "crud",
     "derived": "derived",
     "history": "history",
+    "values": "values",
+    "paths": "paths",
 }
 
 PROPERTY_PROFILE = {
@@ -17,6 +19,8 @@ PROPERTY_PROFILE = {
     "C15": "crud",
     "C12": "derived",
     "C13": "history",
+    "C14": "values",
+    "C05": "paths",
 }
 
 _cache = {}
